@@ -601,6 +601,42 @@ namespace sse
         return f;
     }
 
+    // A library assertion (`assert` is live in these builds), a segmentation fault or an
+    // arithmetic trap while a world is being evaluated is a verdict about that world, not an
+    // infrastructure failure: the worker records the world under <property>/crash/<kind>/<stage>,
+    // writes its shard and stops (the rest of its shard is not explored: exhaustive=false).
+    inline void on_crash(int sig)
+    {
+        std::signal(sig, SIG_DFL);
+        std::signal(SIGALRM, SIG_DFL);
+        alarm(5);
+        Ctx* c = watchdog_ctx();
+        if (!c)
+            std::_Exit(3);
+        const char* kind = sig == SIGABRT ? "abort-or-assertion" : sig == SIGSEGV ? "segv" : sig == SIGFPE ? "fpe" : sig == SIGBUS ? "bus" : "fatal-signal";
+        c->rep.violation(c->args.property + "/crash/" + kind + (c->current_stage.empty() ? "" : "/" + c->current_stage),
+                         c->order(),
+                         c->world_fn ? c->world_fn() : c->current_world,
+                         std::string("the library terminated the process (") + kind + ", signal " + std::to_string(sig)
+                             + ") while this world was evaluated, stage " + c->current_stage);
+        if (c->replay_mode)
+        {
+            if (replay_emit())
+                replay_emit()();
+            std::_Exit(0);
+        }
+        c->rep.worker_died = true;
+        c->rep.write_shard(watchdog_path());
+        std::_Exit(0);
+    }
+    inline void install_crash_handlers()
+    {
+#ifndef SSE_SANITIZED
+        for (int sg : { SIGABRT, SIGSEGV, SIGBUS, SIGFPE, SIGILL })
+            std::signal(sg, on_crash);
+#endif
+    }
+
     // Run `body(ctx)` in `jobs` forked workers (or inline for a replay) and merge.
     inline int run_sharded(const Args& a, const std::function<void(Ctx&)>& body)
     {
@@ -623,6 +659,7 @@ namespace sse
                 std::fputs(js.c_str(), stdout);
                 std::fflush(stdout);
             };
+            install_crash_handlers();
             body(c);
             total.merge(c.rep);
         }
@@ -649,6 +686,7 @@ namespace sse
                     watchdog_ctx() = &c;
                     watchdog_path() = base + ".shard" + std::to_string(s);
                     std::signal(SIGALRM, on_alarm);
+                    install_crash_handlers();
                     body(c);
                     disarm();
                     c.rep.write_shard(watchdog_path());
